@@ -8,6 +8,7 @@ use vh::runner::*;
 
 include!(concat!(env!("OUT_DIR"), "/extract_status.rs"));
 
+mod envblock;
 mod wincomm;
 
 #[allow(dead_code)]
@@ -56,9 +57,23 @@ mod extracted {
     pub fn assemble(argv: Vec<Vec<u16>>) -> io::Result<Vec<u16>> {
         assemble_cmdline(argv.into_iter().map(OsString).collect()).map(|s| s.0)
     }
-    pub fn env_block(env: &[(Vec<u16>, Vec<u16>)]) -> Vec<u16> {
+    /// accepts either form of the function: infallible (as pinned) or returning io::Result
+    pub trait IntoBlock {
+        fn into_block(self) -> io::Result<Vec<u16>>;
+    }
+    impl IntoBlock for Vec<u16> {
+        fn into_block(self) -> io::Result<Vec<u16>> {
+            Ok(self)
+        }
+    }
+    impl IntoBlock for io::Result<Vec<u16>> {
+        fn into_block(self) -> io::Result<Vec<u16>> {
+            self
+        }
+    }
+    pub fn env_block(env: &[(Vec<u16>, Vec<u16>)]) -> io::Result<Vec<u16>> {
         let e: Vec<(OsString, OsString)> = env.iter().map(|(k, v)| (OsString(k.clone()), OsString(v.clone()))).collect();
-        format_env_block(&e)
+        format_env_block(&e).into_block()
     }
 }
 
@@ -543,9 +558,14 @@ fn main() {
         let tier = args.get(4).cloned().unwrap_or_else(|| "quick".into());
         std::process::exit(wincomm::stage(&prop, &tier));
     }
-    if args.get(1).map(|s| s.as_str()) == Some("replay") && matches!(args.get(2).map(|s| s.as_str()), Some("C02") | Some("C03")) {
+    if args.get(1).map(|s| s.as_str()) == Some("stage") && args.get(2).map(|s| s.as_str()) == Some("envblock") {
+        let tier = args.get(3).cloned().unwrap_or_else(|| "quick".into());
+        std::process::exit(envblock::stage(&tier));
+    }
+    if args.get(1).map(|s| s.as_str()) == Some("replay") && matches!(args.get(2).map(|s| s.as_str()), Some("C02") | Some("C03") | Some("C04") | Some("C06")) {
         let body: serde_json::Value = std::fs::read(&args[3]).ok().and_then(|b| serde_json::from_slice(&b).ok()).unwrap_or(serde_json::Value::Null);
-        match wincomm::replay(&args[2], &body["case"]) {
+        let r = if args[2] == "C06" { envblock::replay(&body["case"]) } else { wincomm::replay(&args[2], &body["case"]) };
+        match r {
             Ok(()) => {
                 println!("replay: case passes on this tree");
                 std::process::exit(0)
